@@ -251,6 +251,79 @@ def capture_pushes(store):
     store.storage.notify_all_connected = wrapped
 
 
+HOSTILE_IDS = ['a"b', "back\\slash", "ctl\x01\n", '","x":"', "\u2028", "é", "", "'", '"]', "\x7f", "a" * 70, 'x"],["NOTICE","pwned'] + \
+    [7, 0, None, True, 1.5, ["x"], {"a": 1}]
+
+
+def ws_frames_case(report, rng, backend, keys, tag):
+    """every text frame of real websocket sessions (the raw text, before any parsing on our side), on a relay with and without
+    a rate limit that the session exceeds: commands whose ids, subscription ids and payloads carry quotes, backslashes,
+    control characters and non-string JSON values.  Each frame must parse as JSON of one of the five shapes and echo the
+    client's own strings"""
+    from lib.proto import Relay, Conn
+
+    limited = rng.random() < 0.6
+    relay = Relay(backend, rate_limits={"ip": {"EVENT": "%d/hour" % rng.choice([1, 2, 4]), "REQ": "6/hour"}} if limited else None)
+    try:
+        c = Conn(relay)
+        sent = []
+        for step in range(rng.randint(6, 14)):
+            if c.done:
+                break
+            r = rng.random()
+            n = len(c.out)
+            expect_id = expect_sub = None
+            raw_id = "\0none"
+            if r < 0.3:
+                ev = signed_event(rng, keys)
+                msg = ["EVENT", ev]
+                expect_id = ev["id"]
+            elif r < 0.6:
+                ev = signed_event(rng, keys)
+                ev["id"] = rng.choice(HOSTILE_IDS)
+                msg = ["EVENT", ev]
+                # (an empty id is "no id": the relay computes it, as for an event sent without one)
+                expect_id = ev["id"] if isinstance(ev["id"], str) and ev["id"] else None
+                raw_id = ev["id"]
+            elif r < 0.85:
+                sub = rng.choice(HOSTILE_IDS[:12] + ["s1", "s2"])
+                msg = ["REQ", sub, {"kinds": [1], "limit": 3}]
+                expect_sub = sub
+            elif r < 0.93:
+                msg = ["CLOSE", rng.choice(HOSTILE_IDS[:12] + ["s1"])]
+            else:
+                msg = rng.choice([["AUTH", {"id": 'q"'}], ["EVENT"], ["EVENT", rng.choice(HOSTILE_IDS)], ["REQ"], "[", ["FOO", 'x"y']])
+            sent.append(msg)
+            c.send(msg)
+            payload = {"kind": "ws-frames", "backend": backend, "rate_limited_relay": limited, "messages": sent}
+            for text in c.out[n:]:
+                report.count("ws_frames_" + backend)
+                try:
+                    f = json.loads(text)
+                except Exception:
+                    report.property_failure("%s: the relay sent a frame that is not JSON: %r (in answer to %r)" % (backend, text[:120], msg),
+                                            payload, None)
+                    continue
+                ok_shape = isinstance(f, list) and f and f[0] in ("EVENT", "EOSE", "OK", "NOTICE", "AUTH") and (
+                    (f[0] == "EVENT" and len(f) == 3 and isinstance(f[1], str) and isinstance(f[2], dict))
+                    or (f[0] == "EOSE" and len(f) == 2 and isinstance(f[1], str))
+                    # (the id position holds a string, or — for an EVENT whose id was not a string — that very value echoed)
+                    or (f[0] == "OK" and len(f) == 4 and (isinstance(f[1], str) or json.dumps(f[1]) == json.dumps(raw_id))
+                        and isinstance(f[2], bool) and isinstance(f[3], str))
+                    or (f[0] == "NOTICE" and len(f) == 2 and isinstance(f[1], str))
+                    or (f[0] == "AUTH" and len(f) == 2 and isinstance(f[1], str)))
+                if not ok_shape:
+                    report.property_failure("%s: a frame of no legal shape: %r (in answer to %r)" % (backend, text[:120], msg), payload, None)
+                elif f[0] == "OK" and expect_id is not None and f[1] not in (expect_id, ""):
+                    report.property_failure("%s: OK frame names %r, the EVENT message named %r" % (backend, f[1], expect_id), payload, None)
+                elif f[0] == "EOSE" and expect_sub is not None and f[1] != expect_sub:
+                    report.property_failure("%s: EOSE for %r, the REQ said %r" % (backend, f[1], expect_sub), payload, None)
+        report.case(("ws-frames", backend, tag, limited), nontrivial=True, sample={"backend": backend, "rate_limited": limited, "messages": len(sent)})
+        report.count("ws_frame_sessions_" + backend + ("_rate_limited" if limited else ""))
+    finally:
+        relay.close()
+
+
 def run(report, tier, seed):
     rng = random.Random(seed)
     drv = common.Driver()
@@ -265,7 +338,8 @@ def run(report, tier, seed):
         "by blanks / tabs / newlines, blanks inside or after the sig — all of which bytes.fromhex decodes); "
         "non-trivial = the frame needs an escape or carries a non-string item")
     report.assumptions += ["the codecs (rapidjson, msgpack, SQLite JSON column) are exercised, not modelled",
-                           "OK / NOTICE / AUTH frames are produced by rapidjson's encoder and are checked in C13/C19"]
+                           "OK / NOTICE / AUTH frames: the raw text of every frame of websocket sessions with hostile ids, on relays "
+                           "with and without an exceeded rate limit, must parse and have a legal shape"]
     from aionostr.key import PrivateKey
     keys = [PrivateKey(bytes([i + 1]) * 32) for i in range(3)]
     stores = [KVStore(validators=["nostr_relay.validators.is_signed"]), SQLStore(validators=["nostr_relay.validators.is_signed"])]
@@ -284,6 +358,9 @@ def run(report, tier, seed):
         for i in range(250 if tier == "quick" else 3000):
             for st in stores:
                 store_case(report, rng, st, keys, https[st.backend])
+        for i in range(10 if tier == "quick" else 150):
+            for backend in ("sql", "kv"):
+                ws_frames_case(report, rng, backend, keys, i)
     finally:
         for st in stores:
             st.close()
